@@ -324,6 +324,7 @@ class Check:
         self.known = load_known(prop)
         self.rng = random.Random(self.seed)
         self.replay_dir = os.path.join(VERIF, "evidence", "replay", prop)
+        shutil.rmtree(self.replay_dir, ignore_errors=True)      # replay artefacts belong to one run
 
     @property
     def thorough(self):
